@@ -177,7 +177,8 @@ def run(chk):
     for t in pshapes:
         for ty in (0, 1):
             for r, cfgp in ((1e-2, "szMode=SZ_BEST_SPEED"), (1e-3, "-"), (1e-6, "szMode=SZ_BEST_SPEED")):
-                pw.append("pw %x %s %s %s %d %x 3" % (ty, tup5(t), dbits(r), cfgp, chk.rng.choice((0, 1, 2)), chk.rng.getrandbits(16)))
+                for g in (0, 1, 2):     # smooth positive and mixed-sign fields compress (the rank's own decoder runs); random magnitudes are stored verbatim
+                    pw.append("pw %x %s %s %s %d %x 3" % (ty, tup5(t), dbits(r), cfgp, g, chk.rng.getrandbits(16)))
     po = lib.run_cases(exe, pw, timeout=1800)
     for c, r in zip(pw, po):
         chk.cov["evaluations"] += 1
